@@ -28,7 +28,8 @@ def core_cmp(ev, facts, trait_item, a, b, ta, tb):
 
 def run(ck, facts, tier):
     r4 = ck.rule("R18.4", "Python-facing operators of Dual/Dual2 are the core operators: for every arithmetic/comparison dunder and every kind of `other` the result is "
-                          "Ok(core rule on (self, other)) — (other, self) for the reflected r-variants — and a kind that cannot be mixed with the wrapper's type gives Err", floor=60)
+                          "Ok(core rule on (self, other)) — (other, self) for the reflected r-variants — and a kind that cannot be mixed with the wrapper's type gives Err; unary "
+                          "operators, power by a float, float() and the kind conversions are the core ones", floor=95)
     ev = cel.Ev(facts)
     for own, adt in (("Dual", D1), ("Dual2", D2)):
         flds = ["real", "dual"] + (["dual2"] if own == "Dual2" else [])
@@ -77,6 +78,78 @@ def run(ck, facts, tier):
                                  sample="Ok(self %s other)" % rel)
                 except Unsupported as e:
                     ck.fail(r4, key, "rule could not be established (%s)" % e, where)
+    run_unary(ck, facts)
+
+
+def run_unary(ck, facts):
+    """R18.4 continued: unary Python-facing operators, power by a float, float(), kind conversions."""
+    r4 = "R18.4"
+    ev = cel.Ev(facts)
+    UN = {"__neg__": "std::ops::Neg::neg", "__exp__": "dual::dual_ops::math_funcs::MathFuncs::exp", "__log__": "dual::dual_ops::math_funcs::MathFuncs::log",
+          "__norm_cdf__": "dual::dual_ops::math_funcs::MathFuncs::norm_cdf", "__norm_inv_cdf__": "dual::dual_ops::math_funcs::MathFuncs::inv_norm_cdf",
+          "__abs__": "num_traits::Signed::abs"}
+    for own, adt in (("Dual", D1), ("Dual2", D2)):
+        me = cel.operand("u", adt)
+        P_ = "dual::dual_py::<impl %s>::" % adt
+        for dunder, ti in UN.items():
+            key = "%s::%s" % (own, dunder)
+            r = facts.fn(P_ + dunder)
+            where = "%s:%d" % (r["file"], r["line"]) if r else None
+            try:
+                core_fn = next(rr["fn"] for rr in facts.all_fns() if rr.get("trait_item") == ti and (rr.get("self_ty") or "").replace("&", "") == adt)
+                want = ev.apply_fn(core_fn, [me], 0)
+                got = ev.apply_fn(P_ + dunder, [me], 0)
+                ck.check(r4, key, vkey(got) == vkey(want), "%s is not the core %s of the number: %s" % (dunder, ti.rsplit("::", 1)[-1], cel.vfmt(got)[:300]), where, sample="self.%s()" % ti.rsplit("::", 1)[-1])
+            except (Unsupported, StopIteration) as e:
+                ck.fail(r4, key, "rule could not be established (%s)" % e, where)
+        # power: a float exponent goes to the core pow with that exponent, a dual-number exponent is refused
+        r = facts.fn(P_ + "__pow__")
+        where = "%s:%d" % (r["file"], r["line"]) if r else None
+        for kind in KINDS:
+            key = "%s::__pow__[%s]" % (own, kind)
+            try:
+                pw = operand(kind, "p")
+                got = cel.strip_early(ev.apply_fn(P_ + "__pow__", [me, Sym("ctor", kind, pw), Sym("ctor", "None")], 0))
+                live = [v for _, v in paths.flatten(got) if not (isinstance(v, Sym) and v.tag[:1] == ("diverges",))]
+                g = live[0] if len(live) == 1 else got
+                if kind == "F64":
+                    core_fn = next(rr["fn"] for rr in facts.all_fns() if rr.get("trait_item") == "num_traits::Pow::pow" and rr.get("sig") == [adt, "f64"])
+                    want = ev.apply_fn(core_fn, [me, pw], 0)
+                    ck.check(r4, key, isinstance(g, Sym) and g.tag[:2] == ("ctor", "Ok") and vkey(g.tag[2]) == vkey(want), "__pow__ with a float exponent is not Ok(self.pow(exponent)): %s" % cel.vfmt(g)[:300],
+                             where, sample="Ok(self.pow(f))")
+                else:
+                    ck.check(r4, key, isinstance(g, Sym) and g.tag[:2] == ("ctor", "Err"), "a dual-number exponent is not refused with Err: %s" % cel.vfmt(g)[:200], where, sample="Err(TypeError)")
+            except (Unsupported, StopIteration) as e:
+                ck.fail(r4, key, "rule could not be established (%s)" % e, where)
+        # float(x) is the value
+        try:
+            got = ev.apply_fn(P_ + "__float__", [me], 0)
+            ck.check(r4, "%s::__float__" % own, vkey(got) == vkey(me.fields["real"]), "float(x) is not the number's value: %s" % cel.vfmt(got)[:200], sample="self.real")
+        except Unsupported as e:
+            ck.fail(r4, "%s::__float__" % own, "rule could not be established (%s)" % e)
+    # kind conversions offered to Python are the core From conversions
+    for meth, src, dst in (("to_dual2_py", D1, D2), ("to_dual_py", D2, D1)):
+        key = "%s::%s" % (src.rsplit("::", 1)[-1], meth)
+        try:
+            me = cel.operand("u", src)
+            got = ev.apply_fn("dual::dual_py::<impl %s>::%s" % (src, meth), [me], 0)
+            core_fn = next(rr["fn"] for rr in facts.all_fns() if rr.get("trait_item") == "std::convert::From::from" and rr.get("self_ty") == dst and rr["sig"] == [src])
+            want = ev.apply_fn(core_fn, [me], 0)
+            ck.check(r4, key, vkey(got) == vkey(want), "%s is not the core conversion %s -> %s: %s" % (meth, src.rsplit("::", 1)[-1], dst.rsplit("::", 1)[-1], cel.vfmt(got)[:300]),
+                     sample="self.clone().into()")
+        except (Unsupported, StopIteration) as e:
+            ck.fail(r4, key, "rule could not be established (%s)" % e)
+
+
+def run_gradient_wrappers(ck, facts):
+    if ck.rules.get("R17.4", {}).get("obligations"):
+        return
+    r4 = ck.rule("R17.4", "the Python-facing gradient read-backs are the core ones: grad1(vars) = gradient1(vars), grad2(vars) = gradient2(vars), grad1_manifold(vars) = "
+                          "gradient1_manifold(vars) — one call with the requested names handed over in order and unchanged", floor=4)
+    delegates(ck, r4, facts, "dual::dual_py::<impl dual::dual::Dual>::grad1", "gradient1", "Dual::grad1", effect=True, skip=("py",))
+    delegates(ck, r4, facts, "dual::dual_py::<impl dual::dual::Dual2>::grad1_py", "gradient1", "Dual2::grad1", effect=True, skip=("py",))
+    delegates(ck, r4, facts, "dual::dual_py::<impl dual::dual::Dual2>::grad2_py", "gradient2", "Dual2::grad2", effect=True, skip=("py",))
+    delegates(ck, r4, facts, "dual::dual_py::<impl dual::dual::Dual2>::grad1_manifold_py", "gradient1_manifold", "Dual2::grad1_manifold", effect=True, skip=("_py", "py"))
 
 
 # ---------------------------------------------------------------- thin delegating wrappers
@@ -87,7 +160,7 @@ def _param_value(name, ty):
     return Sym("param", name)
 
 
-def delegates(ck, rid, facts, wrapper, core_name, key, receiver="self", effect=False):
+def delegates(ck, rid, facts, wrapper, core_name, key, receiver="self", effect=False, skip=()):
     """`wrapper(self, p1..pn)` is `core_name(receiver, p1..pn)`: one call of the core method on every path, the wrapper's own parameters handed over in their
     declared order and unchanged, and (unless the wrapper is called for its effect) the core's result returned as is (Ok-wrapped or `?`-propagated at most)."""
     r = facts.fn(wrapper)
@@ -110,7 +183,7 @@ def delegates(ck, rid, facts, wrapper, core_name, key, receiver="self", effect=F
     try:
         got = cel.strip_early(cel.Ev(facts, hooks={"::" + core_name: core}).apply_fn(wrapper, args, 0))
         recv = vkey(Sym("field", "inner")) if receiver == "inner" else vkey(Sym("param", "self"))
-        want_args = [recv] + [vkey(a) for a in args[1:]]
+        want_args = [recv] + [vkey(a) for a, n_ in zip(args[1:], names[1:]) if n_ not in skip]       # `py: Python` tokens are not data
         ok = len(calls) == 1 and calls[0] == want_args
         why = "the wrapper does not call %s exactly once with (self%s, %s): calls %s" % (core_name, ".inner" if receiver == "inner" else "", ", ".join(names[1:]), repr(calls)[:300])
         if ok and not effect:
